@@ -2,6 +2,7 @@ package props
 
 import (
 	"fmt"
+	"go/ast"
 	"go/token"
 	"go/types"
 	"sort"
@@ -123,6 +124,9 @@ func isInitTime(fn *ssa.Function) bool {
 
 func runC20(c *an.Ctx) string {
 	r201SharedWrites(c)
+	r205LockedFields(c)
+	r206UnsafeGlobals(c)
+	r207RangeAll(c, "R20.7")
 	r202AtomicFields(c)
 	r202Sampler(c)
 	r204SharedTypes(c)
@@ -425,4 +429,281 @@ func rootIsParam(addr ssa.Value, p *ssa.Parameter) bool {
 			return false
 		}
 	}
+}
+
+// r205LockedFields (R20.5): a struct field that some request-time code writes
+// while holding a lock is a lock-protected field; every other plain read or
+// write of it on a shared object (not one freshly allocated in the same
+// function, not in an init-time function) must hold a lock too (any lock for a
+// read, an exclusive one for a write).
+func r205LockedFields(c *an.Ctx) {
+	const rule = "R20.5"
+	fieldVar := func(fa *ssa.FieldAddr) *types.Var {
+		t := fa.X.Type().Underlying()
+		if p, ok := t.(*types.Pointer); ok {
+			t = p.Elem().Underlying()
+		}
+		if st, ok := t.(*types.Struct); ok && fa.Field < st.NumFields() {
+			return st.Field(fa.Field)
+		}
+		return nil
+	}
+	var fns []*ssa.Function
+	for _, dir := range runtimeDirs {
+		for _, f := range c.AllFuncs(dir) {
+			if sf := c.SSAFunc(f); sf != nil {
+				fns = append(fns, an.AllFunctions(sf)...)
+			}
+		}
+	}
+	type access struct {
+		fn    *ssa.Function
+		in    ssa.Instruction
+		write bool
+		held  string
+	}
+	acc := map[*types.Var][]access{}
+	isMutexField := func(v *types.Var) bool {
+		s := v.Type().String()
+		return strings.HasPrefix(s, "sync.") || strings.HasPrefix(s, "*sync.")
+	}
+	for _, g := range fns {
+		if isInitTime(g) {
+			continue
+		}
+		for _, b := range g.Blocks {
+			for _, in := range b.Instrs {
+				var fa *ssa.FieldAddr
+				write := false
+				switch x := in.(type) {
+				case *ssa.Store:
+					fa, _ = x.Addr.(*ssa.FieldAddr)
+					write = true
+				case *ssa.UnOp:
+					if x.Op == token.MUL {
+						fa, _ = x.X.(*ssa.FieldAddr)
+					}
+				}
+				if fa == nil {
+					continue
+				}
+				if _, fresh := fa.X.(*ssa.Alloc); fresh {
+					continue
+				}
+				v := fieldVar(fa)
+				if v == nil || v.Pkg() == nil || !strings.HasPrefix(v.Pkg().Path(), an.Mod) || isMutexField(v) {
+					continue
+				}
+				acc[v] = append(acc[v], access{g, in, write, an.HeldAt(g, in, write)})
+			}
+		}
+	}
+	// lock context inherited from the callers: an unexported function (or a
+	// function literal handed to sync.Once.Do, which runs it before returning)
+	// all of whose call sites hold a lock runs with that lock held.
+	type site struct {
+		fn *ssa.Function
+		in ssa.Instruction
+	}
+	callers := map[*ssa.Function][]site{}
+	for _, g := range fns {
+		for _, b := range g.Blocks {
+			for _, in := range b.Instrs {
+				call, ok := in.(ssa.CallInstruction)
+				if !ok {
+					continue
+				}
+				cc := call.Common()
+				if sc := cc.StaticCallee(); sc != nil {
+					callers[sc] = append(callers[sc], site{g, in})
+					if sc.Name() == "Do" && sc.Pkg != nil && sc.Pkg.Pkg.Path() == "sync" {
+						for _, a := range cc.Args {
+							if mc, ok := a.(*ssa.MakeClosure); ok {
+								if lit, ok := mc.Fn.(*ssa.Function); ok {
+									callers[lit] = append(callers[lit], site{g, in})
+								}
+							}
+						}
+					}
+				}
+			}
+		}
+	}
+	var entryHeld func(fn *ssa.Function, write bool, depth int) string
+	entryHeld = func(fn *ssa.Function, write bool, depth int) string {
+		if depth > 3 {
+			return ""
+		}
+		if fn.Parent() == nil && fn.Object() != nil && fn.Object().Exported() {
+			return "" // callable from anywhere
+		}
+		sites := callers[fn]
+		if len(sites) == 0 {
+			return ""
+		}
+		held := ""
+		for _, st := range sites {
+			h := an.HeldAt(st.fn, st.in, write)
+			if h == "" {
+				h = entryHeld(st.fn, write, depth+1)
+			}
+			if h == "" {
+				return ""
+			}
+			held = h
+		}
+		return held
+	}
+	for v, as := range acc {
+		for i := range as {
+			if as[i].held == "" {
+				as[i].held = entryHeld(as[i].fn, as[i].write, 0)
+			}
+		}
+		acc[v] = as
+	}
+	protected := 0
+	var names []*types.Var
+	for v := range acc {
+		names = append(names, v)
+	}
+	sort.Slice(names, func(i, j int) bool { return names[i].Pos() < names[j].Pos() })
+	for _, v := range names {
+		lockedWrite := false
+		for _, a := range acc[v] {
+			if a.write && a.held != "" {
+				lockedWrite = true
+			}
+		}
+		if !lockedWrite {
+			continue
+		}
+		protected++
+		name := v.Pkg().Name() + "." + v.Name()
+		bad := ""
+		for _, a := range acc[v] {
+			if a.held == "" {
+				bad = fmt.Sprintf("%s in %s at %s", map[bool]string{true: "write", false: "read"}[a.write], an.FuncDisplayName(a.fn), c.Position(a.in.Pos()))
+				break
+			}
+		}
+		if bad != "" {
+			c.Failf(rule, "locked-field:"+name, v.Pos(), "field %s is written under a lock elsewhere but there is an unlocked %s: the access races with the locked writers", name, bad)
+		} else {
+			c.Okf(rule, "locked-field:"+name, "every request-time access of the field holds a lock (%d accesses)", len(acc[v]))
+		}
+	}
+	c.Floor(rule, protected, 1, "fields written under a lock in the runtime packages")
+}
+
+// unsafeShared: types whose methods must not be called from two goroutines at
+// once (documented by their packages).
+var unsafeShared = map[string]bool{
+	"math/rand.Rand": true, "math/rand/v2.Rand": true, "bytes.Buffer": true, "strings.Builder": true,
+	"bufio.Reader": true, "bufio.Writer": true, "bufio.Scanner": true, "encoding/json.Encoder": true, "encoding/json.Decoder": true,
+	"encoding/gob.Encoder": true, "encoding/gob.Decoder": true, "encoding/xml.Encoder": true, "encoding/xml.Decoder": true,
+	"hash/maphash.Hash": true, "text/tabwriter.Writer": true,
+}
+
+// r206UnsafeGlobals (R20.6): package-level variables of the runtime packages
+// are classified by type; a variable of a type that is not safe for concurrent
+// use must only be used, outside init, with a lock held.
+func r206UnsafeGlobals(c *an.Ctx) {
+	const rule = "R20.6"
+	examined := 0
+	for _, dir := range runtimeDirs {
+		p := c.Pkg(dir)
+		if p == nil {
+			continue
+		}
+		unsafeVars := map[types.Object]string{}
+		scope := p.Types.Scope()
+		for _, name := range scope.Names() {
+			v, ok := scope.Lookup(name).(*types.Var)
+			if !ok {
+				continue
+			}
+			examined++
+			t := v.Type()
+			if pt, ok := t.(*types.Pointer); ok {
+				t = pt.Elem()
+			}
+			if n, ok := t.(*types.Named); ok && n.Obj().Pkg() != nil {
+				if key := n.Obj().Pkg().Path() + "." + n.Obj().Name(); unsafeShared[key] {
+					unsafeVars[v] = key
+				}
+			}
+		}
+		if len(unsafeVars) == 0 {
+			continue
+		}
+		for _, f := range c.AllFuncs(dir) {
+			sf := c.SSAFunc(f)
+			if sf == nil {
+				continue
+			}
+			for _, g := range an.AllFunctions(sf) {
+				if isInitTime(g) {
+					continue
+				}
+				for _, b := range g.Blocks {
+					for _, in := range b.Instrs {
+						for _, op := range in.Operands(nil) {
+							gl, ok := (*op).(*ssa.Global)
+							if !ok {
+								continue
+							}
+							tn, isUnsafe := unsafeVars[gl.Object()]
+							if !isUnsafe {
+								continue
+							}
+							if an.HeldAt(g, in, true) != "" {
+								continue
+							}
+							c.Failf(rule, "global:"+dir+"."+gl.Name(), in.Pos(), "package variable %s is a %s, which is not safe for concurrent use, and %s uses it without holding a lock: concurrent requests race on its internal state", gl.Name(), tn, an.FuncDisplayName(g))
+						}
+					}
+				}
+			}
+		}
+	}
+	c.Okf(rule, "runtime packages#globals by type", "%d package-level variables of the runtime packages classified: none of a type unsafe for concurrent use is used at request time without a lock", examined)
+	c.Floor(rule, examined, 10, "package-level variables of the runtime packages")
+}
+
+// r207RangeAll (R20.7, shared with C19): a sync.Map.Range callback that acts on
+// every entry (here: cancels every in-flight stream at shutdown) returns true on
+// every path; returning false stops the iteration and leaves the remaining
+// entries untouched.
+func r207RangeAll(c *an.Ctx, rule string) {
+	n := 0
+	for _, dir := range runtimeDirs {
+		for _, f := range c.AllFuncs(dir) {
+			info := f.Pkg.TypesInfo
+			ast.Inspect(f.Decl.Body, func(nd ast.Node) bool {
+				call, ok := nd.(*ast.CallExpr)
+				if !ok || an.CalleeName(info, call) != "(*sync.Map).Range" || len(call.Args) != 1 {
+					return true
+				}
+				lit, ok := call.Args[0].(*ast.FuncLit)
+				if !ok {
+					return true
+				}
+				n++
+				construct := fmt.Sprintf("%s#Range", f.Name)
+				bad := ""
+				an.WalkNoFuncLit(lit.Body, func(m ast.Node) bool {
+					if rs, ok := m.(*ast.ReturnStmt); ok && len(rs.Results) == 1 {
+						if v, isConst := an.ConstBool(info, rs.Results[0]); !isConst || !v {
+							bad = an.Src(c.Fset, rs)
+						}
+					}
+					return true
+				})
+				c.Check(bad == "", rule, construct, call.Pos(), "the Range callback returns true on every path: every entry is visited", "the Range callback can `"+bad+"`: the iteration stops early and the remaining entries (in-flight streams at shutdown) are never visited")
+				return true
+			})
+		}
+	}
+	c.Floor(rule, n, 1, "sync.Map.Range callbacks in the runtime packages")
 }
